@@ -13,3 +13,17 @@ Theorem C02_no_fabricated_field : forall c root ss steps,
   plan c root ss = Ok steps -> incl (flat_map sfields steps) (flat_map ufields ss).
 Proof. exact plan_sub. Qed.
 Print Assumptions C02_no_fabricated_field.
+
+(* "Whatever the services do": at the level of the whole gateway model, for EVERY generation, world (data, downstream
+   behaviour, fault assignment), operation, variables, permission set, limit and fuel, a response is produced (no downstream
+   behaviour makes the gateway fail to answer; the only refusal is an invalid @skip/@include condition, which validation
+   excludes), and a response that carries no data carries at least one error. *)
+From V Require Import Model.Perm Model.SkipInclude Proofs.GatewayTotal.
+Theorem C02_always_answers : forall G fschema W op vars P max fuel ss0,
+  skip_include vars (o_sel op) = Ok ss0 -> exists oc, gateway G fschema W op vars P max fuel = Ok oc.
+Proof. exact gateway_answers. Qed.
+Print Assumptions C02_always_answers.
+Theorem C02_no_data_means_error : forall G fschema W op vars P max fuel oc,
+  gateway G fschema W op vars P max fuel = Ok oc -> r_data (oc_response oc) = None -> r_errors (oc_response oc) <> [].
+Proof. exact gateway_no_data_means_error. Qed.
+Print Assumptions C02_no_data_means_error.
